@@ -115,5 +115,12 @@ Lemma p_ok_some : forall A (l : list A) off i,
   0 <= off + i < Zlen l -> p_ok (Some (l, off)) i = true.
 Proof. intros. unfold p_ok. lia. Qed.
 
+Lemma p_ok_cons0 : forall A (x : A) l, p_ok (Some (x :: l, 0)) 0 = true.
+Proof. intros. apply p_ok_some. rewrite cs_Zlen_cons. pose proof (cs_Zlen_nonneg _ l). lia. Qed.
+
+(* the fuel the translator gives to  for (i = k; i < n; i++)  suffices for n - k iterations *)
+Lemma c_fuel_lt_enough : forall n k : nat, (k <= n)%nat -> (n - k < c_fuel_lt (Z.of_nat k) (Z.of_nat n))%nat.
+Proof. intros n k H. unfold c_fuel_lt. lia. Qed.
+
 Lemma p_get_some : forall A (d : A) l off i, p_get d (Some (l, off)) i = znth l (off + i) d.
 Proof. reflexivity. Qed.
